@@ -1231,6 +1231,44 @@ set_dup_node_check(const struct lyxp_set *set, const struct lyd_node *node, enum
     return LY_SUCCESS;
 }
 
+/**
+ * @brief Check whether a node set includes a node together with one of its ancestors.
+ * The children of such nodes are not in the document order if simply appended.
+ *
+ * @param[in] set Set to check.
+ * @return Whether there are such nodes in @p set.
+ */
+static ly_bool
+set_has_nested_nodes(const struct lyxp_set *set)
+{
+    uint32_t i;
+    const struct lyd_node *parent;
+
+    if (set->used < 2) {
+        return 0;
+    }
+
+    for (i = 0; i < set->used; ++i) {
+        switch (set->val.nodes[i].type) {
+        case LYXP_NODE_ROOT:
+        case LYXP_NODE_ROOT_CONFIG:
+            /* ancestor of all the other nodes */
+            return 1;
+        case LYXP_NODE_ELEM:
+            for (parent = lyd_parent(set->val.nodes[i].node); parent; parent = lyd_parent(parent)) {
+                if (set_dup_node_check(set, parent, LYXP_NODE_ELEM, -1)) {
+                    return 1;
+                }
+            }
+            break;
+        default:
+            break;
+        }
+    }
+
+    return 0;
+}
+
 ly_bool
 lyxp_set_scnode_contains(struct lyxp_set *set, const struct lysc_node *node, enum lyxp_node_type node_type, int skip_idx,
         uint32_t *index_p)
@@ -6136,6 +6174,11 @@ moveto_node(struct lyxp_set *set, const struct lys_module *moveto_mod, const cha
     /* init result set */
     set_init(&result, set);
 
+    if ((axis == LYXP_AXIS_CHILD) && set_has_nested_nodes(set)) {
+        /* the children of a context node and of its descendant are not appended in the document order */
+        result.non_child_axis = 1;
+    }
+
     for (i = 0; i < set->used; ++i) {
         /* iterate over all the nodes on the axis of the node */
         iter = NULL;
@@ -6231,6 +6274,11 @@ moveto_node_hash_child(struct lyxp_set *set, const struct lysc_node *scnode, con
         goto cleanup;
     }
 
+    if (set_has_nested_nodes(set)) {
+        /* the children of a context node and of its descendant are not appended in the document order */
+        result.non_child_axis = 1;
+    }
+
     /* context check for all the nodes since we have the schema node */
     if ((set->root_type == LYXP_NODE_ROOT_CONFIG) && (scnode->flags & LYS_CONFIG_R)) {
         lyxp_set_free_content(set);
@@ -6289,7 +6337,13 @@ moveto_node_hash_child(struct lyxp_set *set, const struct lysc_node *scnode, con
     lyxp_set_free_content(set);
     *set = result;
     result.type = LYXP_SET_NUMBER;
-    assert(!set_sort(set));
+
+    /* sort the final set if the document order could have been broken */
+    if (set->non_child_axis) {
+        set_sort(set);
+    } else {
+        assert(!set_sort(set));
+    }
 
 cleanup:
     lyxp_set_free_content(&result);
